@@ -143,9 +143,13 @@ func genCase(w *world) {
 		case 0:
 			w.put(pick(r, pool), pick(r, vals))
 		case 1:
-			if r.Chance(1, 6) {
+			switch {
+			case r.Chance(1, 6):
 				w.del(nearKey(r, pool))
-			} else {
+			case len(w.ref) > 0 && r.Chance(1, 2): // a key that is present
+				ks := sortedKeys(w.ref)
+				w.del([]byte(ks[r.Intn(len(ks))]))
+			default:
 				w.del(pick(r, pool))
 			}
 		case 2:
@@ -210,6 +214,9 @@ func genBatch(w *world, pool, vals [][]byte) []change {
 		k := pick(r, pool)
 		if r.Chance(1, 8) {
 			k = nearKey(r, pool)
+		} else if len(w.ref) > 0 && r.Chance(1, 3) { // a key that is present
+			ks := sortedKeys(w.ref)
+			k = []byte(ks[r.Intn(len(ks))])
 		}
 		if len(k) > mpt.MaxKeyLength { // PutBatch does not validate; stay inside the documented domain
 			k = k[:mpt.MaxKeyLength]
@@ -271,8 +278,10 @@ func genStart(r *prng.R, pool [][]byte, prefix []byte) []byte {
 	default:
 		s[r.Intn(len(s))] ^= byte(1 << uint(r.Intn(8)))
 	}
-	if len(s) > mpt.MaxKeyLength-len(prefix) {
-		s = s[:mpt.MaxKeyLength-len(prefix)]
+	if room := mpt.MaxKeyLength - len(prefix); room < 0 {
+		s = nil
+	} else if len(s) > room {
+		s = s[:room]
 	}
 	return s
 }
@@ -282,7 +291,7 @@ func genSeek(w *world, pool [][]byte) {
 	var prefix []byte
 	if !r.Chance(1, 3) {
 		prefix = prefixOfSome(r, pool)
-		if r.Chance(1, 10) {
+		if r.Chance(1, 10) && len(prefix) < mpt.MaxKeyLength {
 			prefix = append(prefix, pickB(r))
 		}
 	}
@@ -624,7 +633,8 @@ var corpus = []func(w *world){
 		w.del(hb("1201"))
 		w.root()
 	},
-	// backwards seek from a start position (DESIGN §6 item 10): value of a branch whose key is a proper prefix of Start
+	// regression (fixed by 10d6532): backwards seek from a start position — leaves whose key is a proper
+	// prefix of Start (value of a branch, leaf below an extension) and the extension key comparison
 	func(w *world) {
 		putAll(w, "12", "1205", "1207", "1230", "11")
 		w.seek(nil, hb("1206"), true)
@@ -634,13 +644,21 @@ var corpus = []func(w *world){
 		w.seek(nil, hb("122f"), true)
 		w.seek(hb("12"), hb("06"), true)
 	},
-	// backwards: extension key greater than the rest of Start is included
+	// regression (10d6532): backwards, an extension key greater than the rest of Start was included;
+	// a single key below an extension with Start extending it was dropped
 	func(w *world) {
 		putAll(w, "1235", "1207", "11")
 		w.seek(nil, hb("1231"), true)
 		w.seek(nil, hb("1231"), false)
+		w.del(hb("1235"))
+		w.del(hb("1207"))
+		w.del(hb("11"))
+		putAll(w, "0005")
+		w.seek(nil, hb("00050111"), true)
+		w.seek(nil, hb("00050111"), false)
+		w.seek(hb("00"), hb("0501"), true)
 	},
-	// the prefix ends inside an extension and Start diverges from the rest of its key
+	// regression (a7c7b6e): the prefix ends inside an extension and Start diverges from the rest of its key
 	func(w *world) {
 		putAll(w, "1234")
 		w.seek(hb("12"), hb("35"), false)
@@ -650,7 +668,8 @@ var corpus = []func(w *world){
 		w.find(hb("12"), hb("35"), 10)
 		w.find(hb("12"), hb("33"), 10)
 	},
-	// VerifyProof on stored items that decode as HashNode / EmptyNode
+	// regression (ce9f5e8): VerifyProof on stored items that decode as HashNode (recursed for ever) /
+	// EmptyNode (panicked); run in a child process so that a regression is reported, not fatal
 	func(w *world) {
 		p := append([]byte{3}, make([]byte, 32)...)
 		w.verify(dsha(p), []byte{1}, [][]byte{p}, "corpus")
@@ -677,8 +696,8 @@ var corpus = []func(w *world){
 		w.verify(dsha(b), []byte{0x57}, [][]byte{b}, "corpus")
 		w.verify(dsha(b), []byte{0x58}, [][]byte{b}, "corpus")
 	},
-	// Find on a trie with unflushed changes collapses the visited nodes into HashNodes that are not
-	// in the store: a later Get of a present key fails (oracle only, on a side trie).
+	// regression (4602f33): Find on a trie with unflushed changes collapsed the visited nodes into
+	// HashNodes that are not in the store: a later Get of a present key failed.
 	func(w *world) {
 		t := mpt.NewTrie(nil, mpt.ModeAll, storage.NewMemCachedStore(storage.NewMemoryStore()))
 		_ = t.Put(hb("1234"), []byte{1})
@@ -700,8 +719,8 @@ var corpus = []func(w *world){
 		w.find(hb("12"), nil, 10)
 		w.get(hb("1234"))
 	},
-	// PutBatch stores extension keys that alias the batch's key arrays with spare capacity; a Get
-	// through such an extension (trie.go:133 append) rewrites another extension's key (oracle only).
+	// regression (3e911e6): PutBatch stored extension keys aliasing the batch's key arrays with spare
+	// capacity; a Get through such an extension (trie.go:133 append) rewrote another extension's key.
 	func(w *world) {
 		t := mpt.NewTrie(nil, mpt.ModeAll, storage.NewMemCachedStore(storage.NewMemoryStore()))
 		_ = t.Put(hb("35111210f00f"), []byte{0x5a})
@@ -732,6 +751,9 @@ var corpus = []func(w *world){
 		k2 := bytes.Clone(k)
 		k2[len(k2)-1] ^= 1
 		w.put(k, []byte{1})
+		w.reopen() // a lone maximum-length key: root extension with 136 nibbles must decode
+		w.get(k)
+		w.proof(k)
 		w.put(k2, []byte{})
 		w.put(k[:len(k)-1], []byte{1})
 		w.put(append(bytes.Clone(k), 1), []byte{1}) // too long
